@@ -7,6 +7,7 @@ holds the block's first character; the harness parses the source with the real p
 """
 import json
 import multiprocessing as mp
+import re
 
 from . import core, docgen
 
@@ -21,6 +22,133 @@ def _worker(docs):
             got = [{'t': 'EXCEPTION ' + e.__class__.__name__, 'ln': 0}]
         out.append(got)
     return out
+
+
+WORD = re.compile(r'[A-Za-z0-9]+')
+
+
+def _nows(s):
+    return s.replace(' ', '').replace('\t', '').replace('\n', '')
+
+
+def cursor_and_anchor_records(m, text):
+    """Code -> spec on an arbitrary input: the dispatch cursor of every (nested) block loop, observed through a pass-through
+    block token at position 0, and a characteristic anchor of every block token's first line."""
+    from mistletoe import block_token
+    src = text.splitlines(keepends=True)
+    src = [l if l.endswith('\n') else l + '\n' for l in src]
+    obs, ids, keep = [], {}, []       # `keep` holds the wrappers so that id() values are not reused
+
+    class CursorProbe(block_token.BlockToken):
+        @staticmethod
+        def start(line):
+            return True
+
+        @classmethod
+        def read(cls, lines):
+            if id(lines) not in ids:
+                keep.append(lines)
+            w = ids.setdefault(id(lines), len(ids) + 1)
+            p = lines.line_number() - lines.start_line + 2
+            peek = lines.peek() or ''
+            g = lines.start_line + p - 1
+            ok = 1 <= g <= len(src) and _nows(src[g - 1]).endswith(_nows(peek))
+            obs.append({'w': w, 'start': lines.start_line, 'pos': p, 'n': len(lines.lines), 'tail': 'yes' if ok else 'no'})
+            return None
+    with m.HtmlRenderer():
+        block_token.add_token(CursorProbe, 0)
+        m.Document(text)
+    with m.HtmlRenderer():
+        doc = m.Document(text)
+    toks = []
+
+    def first_raw(t):
+        ch = t.children
+        if ch is None:
+            return t if t.__class__.__name__ == 'RawText' else None
+        for c in ch:
+            return first_raw(c) if c.__class__.__name__ == 'RawText' or c.children is not None else None
+        return None
+
+    def anchor(t):
+        n = t.__class__.__name__
+        if n in ('Paragraph', 'SetextHeading', 'TableCell', 'BlockCode'):
+            r = first_raw(t)
+            if r is None or not list(t.children) or (n != 'BlockCode' and t.children[0] is not r):
+                return None
+            mm = WORD.match(r.content.lstrip())
+            return mm.group(0) if mm else None
+        if n == 'Heading':
+            return '#'
+        if n == 'ThematicBreak':
+            return t.line.strip()[:1]
+        if n == 'CodeFence':
+            return t.delimiter
+        if n == 'Quote':
+            return '>'
+        if n == 'ListItem':
+            return t.leader
+        if n == 'List':
+            return t.children[0].leader if t.children else None
+        if n in ('Table', 'TableRow'):
+            return '|'
+        if n == 'HtmlBlock':
+            return '<'
+        return None
+
+    def walk(t):
+        if isinstance(t, block_token.BlockToken) and t.__class__.__name__ != 'Document':
+            a = anchor(t)
+            if a:
+                ln = getattr(t, 'line_number', None)
+                found = isinstance(ln, int) and 1 <= ln <= len(src) and a in src[ln - 1]
+                toks.append({'t': t.__class__.__name__, 'ln': ln if isinstance(ln, int) else -1, 'found': 'yes' if found else 'no'})
+        for c in (t.children or []):
+            if isinstance(c, block_token.BlockToken):
+                walk(c)
+        hdr = vars(t).get('header')
+        if hdr is not None:
+            walk(hdr)
+    walk(doc)
+    return {'law': 'cursor', 'obs': obs}, {'law': 'anchors', 'tokens': toks}
+
+
+def arbitrary_inputs_layer(ck, m):
+    from . import inputs
+    design = core.tlc('BlockCursor', 'BlockCursor.cfg', workers=1)
+    ck.add_tlc(design)
+    bad = core.tlc('BlockCursor', 'BlockCursorBad.cfg', workers=1, check=False)
+    if not (bad.error and 'Terminates is violated' in bad.error):
+        raise core.MachineryError('BlockCursor: the misbehaving reader does not violate Terminates (vacuous design-level model)')
+    recs, meta = [], []
+    for t in inputs.texts(ck.rng, 2500 if ck.tier == 'quick' else 60000):
+        if len(t) > 1500 or not inputs.only_lf(t):
+            continue
+        try:
+            a, b = cursor_and_anchor_records(m, t)
+        except Exception:
+            continue         # totality is C01's business
+        finally:
+            from mistletoe import block_token, span_token
+            block_token.reset_tokens()
+            span_token.reset_tokens()
+        recs += [a, b]
+        meta += [t, t]
+    verdicts, st = core.judge('BlockCursorTrace', 'BlockCursorTrace.cfg', recs, ck.work, shard=1500)
+    ck.add_tlc(st)
+    for t, r, v in zip(meta, recs, verdicts):
+        ck.count(('arbitrary', r['law'], t) if t.strip() else None)
+        ck.traces += 1
+        if v != 'ok':
+            classes = ['unicode-whitespace-only-line'] if inputs.has_unicode_blank_line(t) else []
+            ck.violation('%s: input=%r' % (v, t), {'input': t, 'law': r['law'], 'clause': v, 'classes': classes})
+    ck.extra['arbitrary_inputs'] = len(recs) // 2
+    badrec = [{'law': 'cursor', 'obs': [{'w': 1, 'start': 1, 'pos': 1, 'n': 2, 'tail': 'yes'}, {'w': 1, 'start': 1, 'pos': 1, 'n': 2, 'tail': 'yes'}]},
+              {'law': 'cursor', 'obs': [{'w': 1, 'start': 1, 'pos': 1, 'n': 2, 'tail': 'no'}]},
+              {'law': 'anchors', 'tokens': [{'t': 'Paragraph', 'ln': 3, 'found': 'no'}]}]
+    bv, _ = core.judge('BlockCursorTrace', 'BlockCursorTrace.cfg', badrec, ck.work)
+    if any(v == 'ok' for v in bv):
+        raise core.MachineryError('binding self-test: a bad cursor / anchor record was accepted')
 
 
 def run():
@@ -45,6 +173,7 @@ def run():
             ck.violation('%s: source=%r expected=%s observed=%s tags=%s' % (clause, d['src'], d['lines'], g, d['tags']),
                          {'input': d['src'], 'expected': d['lines'], 'observed': g, 'classes': sorted(d['tags']), 'clause': clause})
     m = core.impl()
+    arbitrary_inputs_layer(ck, m)
     d = docs[len(docs) // 2]
     g, _ = docgen.block_lines(m, d['src'])
     if g == [dict(x, ln=x['ln'] + 1) for x in d['lines']]:
